@@ -408,7 +408,7 @@ def w_type(t):
 
 
 def rows_metadata(columns, ks="ks", table="t", paging_state=None, global_spec=True, no_metadata=False,
-                  new_metadata_id=None):
+                  new_metadata_id=None, cp_seq=None, cp_last=False):
     """columns: list of (name, type) or (ks, table, name, type)."""
     flags = 0
     if global_spec:
@@ -419,13 +419,19 @@ def rows_metadata(columns, ks="ks", table="t", paging_state=None, global_spec=Tr
         flags |= 0x0004
     if new_metadata_id is not None:
         flags |= 0x0008
+    if cp_seq is not None:                 # DSE continuous paging: sequence number, "last page" flag
+        flags |= 0x40000000
+        if cp_last:
+            flags |= 0x80000000
     out = w_int(flags) + w_int(len(columns))
     if paging_state is not None:
         out += w_bytes(paging_state)
-    if new_metadata_id is not None:
-        out += w_shortbytes(new_metadata_id)
     if no_metadata:
         return out
+    if cp_seq is not None:
+        out += w_int(cp_seq)
+    if new_metadata_id is not None:
+        out += w_shortbytes(new_metadata_id)
     if global_spec:
         out += w_string(ks) + w_string(table)
     for c in columns:
